@@ -4,6 +4,9 @@ Shares the model, the protocol and the generators with C01 (harness/props/c01.py
 correspond: the implementation's matrix of A.N (basis vectors + a Gaussian-integer vector) against
   the Lean model's `denote (normal e)` (third matrix of the `mats` reply), for every class and
   random trees;
+  plus (stream `cover`) the real `A.H(A(1))` / `A.N(1)` of ArrayToBlocks in 1-3 D against the product of
+  the per-axis cover counts printed by the Lean driver (`C04.coverAxis`: `coverPairs` with the `num_blks`
+  formula regenerated from ArrayToBlocks.__init__) - the statement of `b2a{1,2,3}_a2b{1,2,3}_cover`;
 search: A.N(x) vs A.H(A(x)) on the real objects — exact on Gaussian integers where the arithmetic is
   exact, 1e-6 relative for FFT / NUFFT(toeplitz=False) / wavelet / convolution leaves, and for the
   Toeplitz NUFFT normal a relative l2 error of at most twice the C06 bound (6 % at the default
@@ -19,20 +22,129 @@ from harness.props import c01 as B
 from harness.translate import gen as G
 
 PROPERTY = "C04"
-LEAN_MODULES = ["SigpyVerif.Props.C04", "SigpyVerif.Lemmas.C04Cover"]
+LEAN_MODULES = ["SigpyVerif.Props.C04", "SigpyVerif.Lemmas.C04Cover", "SigpyVerif.Lemmas.C04CoverND",
+                "SigpyVerif.Lemmas.C04CoverIff", "SigpyVerif.Props.C04Shortcut"]
 THEOREMS = ["SigpyVerif.C04." + t for t in [
     "normal_eq_default", "normal_default", "normal_gram", "circshift_normal_axis",
     "b2a1_a2b1_cover_partial", "coverScatter_eq_coverPairs", "b2a1_a2b1_cover", "cover_tiling", "cover_overlap",
     "cover_gap", "cover_witness", "blocks_identity_wrong_witness",
-]] + ["SigpyVerif.C01.applyF_compE", "SigpyVerif.C01.adj_denote"]
+    # Lemmas/C04CoverND.lean: 2-D / 3-D cover
+    "a2b2_apply", "b2a2_apply", "b2a2_a2b2_cover", "a2b3_apply", "b2a3_apply", "b2a3_a2b3_cover",
+    "blocks2_identity_wrong_witness",
+    # Lemmas/C04CoverIff.lean: reverse directions
+    "cover_pos_iff", "cover_le_one_iff", "cover_le_one_iff_array", "cover_single_block", "cover_one_iff_tiling",
+    "cover_one_iff_tiling_proper", "cover2_one_iff_tiling", "cover3_one_iff_tiling", "cover_nondividing_witness", "a2b1_b2a1_apply", "b2a_normal_identity_iff",
+    "coverAxis_all_one_iff",
+    # Props/C04Shortcut.lean: the Identity overrides and the tree theorem
+    "applyF_of_out_nodup", "perm_normal_id", "gather_permMat", "shortcutOK_of_perm",
+    "shortcut_normal_is_identity_identity", "shortcut_normal_is_identity_reshape",
+    "shortcut_normal_is_identity_transpose", "shortcut_normal_is_identity_circshift", "shortcut_normal_is_identity",
+    "isAdj_apply", "normal_denote_leaves",
+]] + ["SigpyVerif.C01.applyF_compE", "SigpyVerif.C01.adj_denote", "SigpyVerif.C01.adj_denote_leaves",
+      "SigpyVerif.C01.transpose_pair", "SigpyVerif.C01.gatherE_axmap_perm", "SigpyVerif.C01.circshift_entries"]
 
 
 def translate(ctx):
     G.regenerate(ctx, ["Block", "UtilFormulas", "LinopFormulas", "Interp"])
 
 
+def block_layouts(rng, quick):
+    """(shape, blk, str) of ArrayToBlocks in 1-3 D with a leading batch axis or not: every 1-D layout up to length 7
+    with strides 1..4, the tiling-stride layouts whose block length does NOT divide the extent (stride == block is
+    not enough for N = Identity), and random 2-D / 3-D layouts"""
+    out = []
+    for n in range(1, 8):
+        for b in range(1, n + 1):
+            for s in range(1, 5):
+                out.append(([n], [b], [s]))
+    fixed = [([5], [2], [2]), ([7], [3], [3]), ([2, 5], [2], [2]), ([4, 5], [2, 2], [2, 2]), ([5, 4], [2, 2], [2, 2]),
+             ([6, 4], [3, 2], [3, 2]), ([3, 5], [2, 2], [1, 1]), ([2, 4, 5], [2, 2], [2, 2]), ([3, 4, 5], [2, 2, 2], [2, 2, 2]),
+             ([2, 4, 2], [2, 2, 2], [2, 2, 2]), ([3, 3, 4], [2, 2, 2], [1, 2, 3]), ([2, 3, 3, 4], [2, 2, 2], [1, 1, 2]),
+             ([4, 4], [4, 2], [3, 2]), ([6], [2], [2]), ([4, 6], [2, 3], [2, 3])]
+    if quick:
+        out = rng.sample(out, 50)
+    out += fixed
+    for _ in range(25 if quick else 200):
+        d = rng.choice([2, 2, 3])
+        lead = [rng.randint(1, 2)] if rng.random() < 0.4 else []
+        nsh = [rng.randint(1, 5 if d == 2 else 4) for _ in range(d)]
+        blk = [rng.randint(1, n) for n in nsh]
+        st = [b if rng.random() < 0.4 else rng.randint(1, 4) for b in blk]
+        out.append((lead + nsh, blk, st))
+    return out
+
+
+def brute_cover(L, Bk, S):
+    """number of (block, offset) pairs landing on each index of an axis - straight from the property statement"""
+    nb = (L - Bk + S) // S
+    c = [0] * L
+    for n in range(nb):
+        for x in range(Bk):
+            if n * S + x < L:
+                c[n * S + x] += 1
+    return c
+
+
+def cover_array(shape, blk, st, axes_cover):
+    d = len(blk)
+    cov = np.ones(shape[len(shape) - d:], dtype=np.int64)
+    for a in range(d):
+        v = np.asarray(axes_cover[a], dtype=np.int64)
+        cov = cov * v.reshape([-1 if i == a else 1 for i in range(d)])
+    return np.broadcast_to(cov, shape)
+
+
+def correspond_cover(ctx):
+    """real A.H(A(1)) and A.N(1) of ArrayToBlocks vs the Lean cover counts (product over the block axes)"""
+    from sigpy import linop as lo
+    lays = block_layouts(ctx.rng, ctx.tier == "quick")
+    lines = ["C04 cover L=%s B=%s S=%s" % (",".join(map(str, sh[len(sh) - len(blk):])), ",".join(map(str, blk)),
+                                            ",".join(map(str, st))) for sh, blk, st in lays]
+    replies = ctx.driver(lines)
+    bad = 0
+    for (sh, blk, st), ln, r in zip(lays, lines, replies):
+        d = len(blk)
+        tiling = all(s == b and n % b == 0 or b == n for n, b, s in zip(sh[len(sh) - d:], blk, st))
+        ctx.count("cover:%dd:%s" % (d, "tiling" if tiling else "non-tiling"))
+        ctx.case(ln, sample=dict(line=ln, reply=r[:120]) if ctx.evaluations % 17 == 0 else None)
+        spec = ["leaf", "a2b", dict(sh=sh, blk=blk, str=st)]
+        case = dict(spec=spec, oracle="cover")
+        if not r.startswith("ok "):
+            bad += 1
+            ctx.disagree("cover", case, "ArrayToBlocks%s" % ((sh, blk, st),), r)
+            continue
+        model = [[int(v) for v in part.strip().split(",")] for part in r[3:].split("|")]
+        want = cover_array(sh, blk, st, model)
+        if all(all(v == 1 for v in ax) for ax in model) != tiling:      # coverAxis_all_one_iff
+            bad += 1
+            ctx.disagree("cover", case, "tiling=%s" % tiling, r)
+        try:
+            A = lo.ArrayToBlocks(sh, blk, st)
+            one = np.ones(sh, dtype=np.complex128)
+            aha = np.asarray(A.H(A(one)))
+            an = np.asarray(A.N(one))
+        except Exception as e:
+            bad += 1
+            ctx.disagree("cover", case, repr(e), r)
+            continue
+        if not (aha.shape == want.shape and np.array_equal(aha, want) and np.array_equal(an, want)):
+            bad += 1
+            ctx.disagree("cover", case, dict(AHA=aha.real.astype(int).reshape(-1).tolist()[:40],
+                                             AN=an.real.astype(int).reshape(-1).tolist()[:40]),
+                         want.reshape(-1).tolist()[:40])
+    ctx.oblige("correspondence:C04.cover", "correspondence", bad == 0, "%d disagreements" % bad)
+
+
 def correspond(ctx):
     B.correspond(ctx, which=("MN",))
+    correspond_cover(ctx)
+    ctx.notes.append("proved in Lean (Props/C04Shortcut.lean): the Identity overrides of Identity / Reshape / Transpose / "
+                     "Circshift agree with A.H A at the entry level of the model (shortcut_normal_is_identity_*), and for "
+                     "every tree over the C01.LeafProved classes A.N acts as x -> A^H(A x) with A^H the true adjoint "
+                     "(normal_denote_leaves); 2-D / 3-D block cover = product of the per-axis counts (b2a2_a2b2_cover, "
+                     "b2a3_a2b3_cover); cover = 1 everywhere iff (S = B and B | L) or B = L (cover_one_iff_tiling - a single "
+                     "block that spans the axis is the one non-tiling case); BlocksToArray.N = Identity iff B <= S or a "
+                     "single block (b2a_normal_identity_iff, cover_le_one_iff)")
     ctx.assumptions.append("FFT/IFFT normal = Identity is C05's unitarity theorem; the Toeplitz NUFFT normal's accuracy is "
                            "inherited from C06 (search oracle with the stated tolerance only)")
 
@@ -124,6 +236,50 @@ def normal_oracle(ctx, spec, x=None, origin="search"):
     return ok
 
 
+def cover_oracle(ctx, sh, blk, st, x=None, origin="search"):
+    """ArrayToBlocks: A.H(A(x)) == A.N(x) == cover * x with cover = product over the block axes of the number of
+    (block, offset) pairs landing on the index;  BlocksToArray (1-D): A.N = Identity iff B <= S or a single block."""
+    from sigpy import linop as lo
+    d = len(blk)
+    spec = ["leaf", "a2b", dict(sh=sh, blk=blk, str=st)]
+    case = dict(spec=spec, oracle="cover")
+    try:
+        A = lo.ArrayToBlocks(sh, blk, st)
+    except Exception:
+        return True
+    x = B.gvec(ctx.rng, sh) if x is None else np.asarray(x).reshape(sh)
+    case["x"] = [[float(v.real), float(v.imag)] for v in np.asarray(x, dtype=np.complex128).reshape(-1)]
+    cov = cover_array(sh, blk, st, [brute_cover(n, b, s) for n, b, s in zip(sh[len(sh) - d:], blk, st)])
+    want = cov * x
+    ok = True
+    for name, f in (("A.H(A(x))", lambda: A.H(A(x.copy()))), ("A.N(x)", lambda: A.N(x.copy()))):
+        try:
+            got = np.asarray(f())
+        except Exception as e:
+            ctx.fail("C04:ArrayToBlocks.N", "%s raises" % name, case, observed=repr(e), expected="cover * x", origin=origin)
+            return False
+        if got.shape != want.shape or not np.array_equal(got, want):
+            ctx.fail("C04:ArrayToBlocks.N", "%s != cover * x (cover = product of per-axis block counts)" % name, case,
+                     observed=got.reshape(-1).tolist()[:30], expected=dict(cover=cov.reshape(-1).tolist()[:30],
+                                                                           value=want.reshape(-1).tolist()[:30]), origin=origin)
+            ok = False
+            break
+    if d == 1 and len(sh) == 1 and ok:
+        nb = (sh[0] - blk[0] + st[0]) // st[0]
+        try:
+            Bo = lo.BlocksToArray(sh, blk, st)
+            one = np.ones(Bo.ishape, dtype=np.complex128)
+            ident = bool(np.array_equal(np.asarray(Bo.N(one)), one))
+        except Exception:
+            return ok
+        expect = blk[0] <= st[0] or nb <= 1
+        if ident != expect:
+            ctx.fail("C04:BlocksToArray.N", "BlocksToArray.N(1) == 1 must hold iff B <= S or a single block",
+                     dict(spec=["leaf", "b2a", dict(sh=sh, blk=blk, str=st)]), observed=ident, expected=expect, origin=origin)
+            ok = False
+    return ok
+
+
 def gen_toeplitz(rng):
     d = rng.choice([1, 2, 2])
     g = [rng.randint(4, 10) for _ in range(d)]
@@ -150,6 +306,15 @@ def search(ctx, budget):
     for spec in [["leaf", "a2b", dict(sh=[5], blk=[2], str=[1])], ["leaf", "b2a", dict(sh=[5], blk=[2], str=[1])]]:
         ctx.case(("oracle", json.dumps(spec)))
         normal_oracle(ctx, spec, x=np.arange(1, 1 + B.prod(B.build(spec).ishape), dtype=np.complex128).reshape(B.build(spec).ishape))
+    for d in ctx.disagreements[:100]:
+        c = d["case"]
+        if c.get("oracle") == "cover":
+            p = c["spec"][2]
+            cover_oracle(ctx, p["sh"], p["blk"], p["str"], origin="disagreement")
+    for sh, blk, st in block_layouts(rng, budget <= 1):
+        ctx.case(("cover-oracle", json.dumps([sh, blk, st])))
+        ctx.count("oracle:cover:%dd" % len(blk))
+        cover_oracle(ctx, sh, blk, st)
     blocks = list(exhaustive_blocks())
     for spec in (blocks if budget > 1 else rng.sample(blocks, 40)):
         ctx.case(("oracle", json.dumps(spec)))
@@ -182,6 +347,12 @@ def search(ctx, budget):
 def replay(path):
     def orc(ctx, c):
         x = None
+        if c.get("oracle") == "cover":
+            p = c["spec"][2]
+            xx = None
+            if "x" in c:
+                xx = np.array([complex(a, b) for a, b in c["x"]])
+            return cover_oracle(ctx, p["sh"], p["blk"], p["str"], x=xx, origin="replay")
         if "x" in c:
             try:
                 A = B.build(c["spec"])
